@@ -29,10 +29,14 @@ var vErrSentinel = errors.New("sentinel failure")
 func VH_C15_recovery() {
 	before := vx.ParamInt("before") // middleware in front of Recovery
 	depth := vx.ParamInt("depth")   // pass-through handlers between Recovery and the panicking one
-	kind := vx.Choice(8)            // what is thrown (6: a panic raised inside a ResponseWriter Before function; 7: http.ErrAbortHandler)
+	kind := vx.Choice(9)            // what is thrown (6: a panic raised inside a ResponseWriter Before function; 7: http.ErrAbortHandler; 8: the underlying writer panics on an invalid status code the handler returned)
 	phase := vx.Choice(2)           // 0: before the handler wrote anything, 1: after its own write
-	if kind == 6 {
-		vx.Assume(phase == 0) // the before-function case has no "after its own write" phase
+	if kind == 6 || kind == 8 {
+		vx.Assume(phase == 0) // these cases have no "after its own write" phase
+	}
+	badCode := 0
+	if kind == 8 {
+		badCode = vx.Int(0, 99)
 	}
 	early := vx.Bool() // a middleware in front of Recovery already sent a status
 	s0 := vx.Int(100, 999)
@@ -96,7 +100,15 @@ func VH_C15_recovery() {
 			_, _ = c.ResponseWriter().Write([]byte("x"))
 		}
 	}
-	if kind == 5 {
+	if kind == 8 {
+		// the handler returns a status net/http refuses: the underlying writer panics inside WriteHeader
+		f.Get("/", func() (int, string) {
+			if !armed {
+				return 200, "ok"
+			}
+			return badCode, "x"
+		})
+	} else if kind == 5 {
 		// failed dependency resolution: the route handler wants a type nobody mapped
 		f.Get("/", func(c Context, u *vUnmapped) {})
 	} else if refl {
@@ -106,7 +118,7 @@ func VH_C15_recovery() {
 	}
 
 	SetEnv(envs[envc])
-	spy := &vSpy{}
+	spy := &vSpy{strict: kind == 8}
 	req := &http.Request{Method: "GET", URL: &url.URL{Path: "/"}, Header: http.Header{}}
 	escaped := false
 	func() {
@@ -125,6 +137,12 @@ func VH_C15_recovery() {
 	if !reaches {
 		vx.Assert(spy.headers == 1 && spy.firstCode == s0 && spy.bytes == 0, "C15: (panic site not reached) the early status stands")
 		vx.Observe("not-reached", kind, early, nested)
+		return
+	}
+	if kind == 8 && early && before > 0 {
+		// the status was sent earlier: the returned code is ignored by the writer, nothing panics
+		vx.Assert(spy.headers == 1 && spy.firstCode == s0 && string(spy.body) == "x", "C15: (invalid code returned after the status) normal response")
+		vx.Observe("code-ignored", kind, early)
 		return
 	}
 	if kind == 6 && early && before > 0 {
